@@ -126,6 +126,31 @@ func anchorScenario(o anchorOpts) *Scenario {
 		)
 	}
 	if o.purchases {
+		// three records in one block (retention effects that need several records are one step away)
+		add(
+			Action{Name: "wrec(W1,#1,next)x3", Dt: time.Millisecond, Txs: func(m *model.State) []model.Tx {
+				last := uint64(0)
+				if e, ok := m.Wrk.Ents[1]; ok {
+					last = e.Last
+				}
+				var txs []model.Tx
+				for i := uint64(1); i <= 3; i++ {
+					txs = append(txs, model.Tx{Msgs: []model.Msg{{Kind: model.WrkRec, From: "W1", ID: 1, H: last + i, S: recHashes(m, 1, last+i)}}, Fee: fee(m.Wrk.P.FeeRec)})
+				}
+				return txs
+			}},
+			Action{Name: "brec(W1,#1)x3", Dt: time.Millisecond, Txs: func(m *model.State) []model.Tx {
+				n := 0
+				if e, ok := m.Bcn.Ents[1]; ok {
+					n = len(e.Ever)
+				}
+				var txs []model.Tx
+				for i := 0; i < 3; i++ {
+					txs = append(txs, model.Tx{Msgs: []model.Msg{{Kind: model.BcnRec, From: "W1", ID: 1, S: []string{fmt.Sprintf("0xts-1-%d", n+i)}, T: uint64(1_600_000_000 + n + i)}}, Fee: fee(m.Bcn.P.FeeRec)})
+				}
+				return txs
+			}},
+		)
 		add(
 			purAct("wpur(W1,#1,1)", model.WrkPur, "W1", 1, 1, ""),
 			purAct("wpur(W1,#1,2)", model.WrkPur, "W1", 1, 2, ""),
